@@ -106,6 +106,31 @@ CHECKS = {
             'states (IMAP) and ManageSieve, hostile stored messages x every FETCH attribute and SEARCH key on dict and maildir: every line answered, no [SERVERBUG], no close without BYE, no spin (SIGALRM), other connections still served.',
             'Trusted: as C13. Partial by construction: the email package, re and codecs are not modelled; the command-line parser itself has no Lean model yet (C06_parse_total is not claimed). Known findings D47, D48, D49.',
             'DESIGN.md section 6 C06'),
+    'C20': ('Lean 4 invariants over a transition system of the read-write lock on a model of asyncio.Lock (any number of tasks, any schedule, cancellation anywhere) and of the lock-file lock + exhaustive schedule exploration of the real primitive',
+            'C20_exclusion and C20_cancel_safe (reader counter = number of readers between acquire and release after cancelling any waiter) are proved for the RWLock model; C20_file_exclusion and C20_file_released for the FileLock model. '
+            'Tie: pymap\'s real asyncio read-write lock under a deterministic scheduler; every step of every explored schedule (DFS over all schedules with at most one cancellation of all 2-task programs, thorough 3-task; random for 4) is replayed '
+            'in the model and who-is-inside/waiting/finished plus the counter compared. Monitors: no overlap with a writer, drainable (no deadlock), usable and counter 0 afterwards; FileLock writers with yields, exceptions, cancellations, stale files.',
+            'Trusted: Lean kernel, axioms propext/Classical.choice/Quot.sound, the harness. asyncio.Lock semantics (CPython 3.12) are modelled, validated by the correspondence, not proved; C20_no_deadlock is explored, not proved; threading twin not modelled; '
+            'FileLock has no model-vs-code replay (monitor only) and rests on O_EXCL.',
+            'DESIGN.md section 6 C20'),
+    'C16': ('Lean 4 safety invariant and bounded-progress theorem over the IDLE wake-up transition system + scheduler-driven correspondence on the real connection',
+            'C16_no_lost_wakeup (parked on an unfired listener implies everything consumed) and C16_progress (from any reachable state at most 6 own steps deliver everything) are proved for the repaired wait; C16_lost_wakeup_as_found is the decide-checked '
+            'witness against the code as found. Tie: a real idling connection parked inside drain() so that changes land mid-notification; every change and release is replayed as model labels and "everything delivered" compared at quiescence. '
+            'Monitor: what the idling client was told (count, flags per position; C01 shadow rules) equals the mailbox with no DONE and no further activity; DONE -> OK, anything else -> BAD; maildir with real 1 s polling.',
+            'Trusted: as C20. The idler\'s steps between parks are taken as atomic (asyncio is cooperative); maildir has no model (polling), monitor only.',
+            'DESIGN.md section 6 C16'),
+    'C14': ('Lean 4 conservation invariant over MOVE under cancellation with a second session + fault enumeration at every park point of the real command',
+            'C14_conservation (a message being moved is in source or destination in every reachable state, any cancellation point, other sessions active), C14_move_loses_as_found (decide), C14_multiappend_atomic_full_false/_partial (known finding D21) '
+            'are proved. Tie: single-message MOVE runs on the real dict backend, parked at every lock acquisition, replayed as Faults labels and (in source, in destination) compared. Monitor: MOVE/COPY/EXPUNGE/APPEND(1-3) cut at EVERY park point by '
+            'cancellation and by an exception from the n-th storage call, with a second session interleaved; probe dumps at every park point and at the end (conservation, exactly-one after OK, NO/BAD changes nothing, multi-APPEND atomicity).',
+            'Trusted: as C20. Partial: dict backend only (maildir process kill is C15); multi-message MOVE is monitored, the model is per message. Known finding D21.',
+            'DESIGN.md section 6 C14'),
+    'C15': ('Lean 4 theorems over an abstract maildir filesystem (every prefix of every command\'s system calls, any history) + exhaustive crash-point enumeration in a child process',
+            'C15_prefix, C15_full, C15_recover, C15_crash_anywhere are proved: after any history and a crash at any system-call boundary, recovery keeps every acknowledged message under its UID, the UID list duplicate-free, next-UID monotone, UIDVALIDITY unchanged. '
+            'Tie: the recorded system-call trace of each command must equal MaildirFS.ops and the UIDs served after each crash point must equal listing (recover prefix). Monitor: a child process exits instead of its k-th filesystem operation for EVERY k of each '
+            'history (APPEND/STORE/COPY/MOVE/EXPUNGE/CREATE/RENAME/SUBSCRIBE/CHECK), a fresh server is started and compared with the acknowledged state; layouts ++/fs; temp dir on the same / another filesystem.',
+            'Trusted: as C20. Partial: crash = process kill between Python-level filesystem calls (no fsync/power-loss, no torn writes, no foreign writers); the restart is observed after lock-file expiration; the model covers append/expunge/flags/cleanup on one folder.',
+            'DESIGN.md section 6 C15'),
 }
 
 NOT_YET = 'check not built yet in this round (see DESIGN.md section 10 for the build order); nothing is claimed'
